@@ -454,7 +454,7 @@ func (x *Exec) appendBuiltin(c *ssa.CallCommon, args []Val, st *State, r string)
 func (x *Exec) siteAsserts(fr *frame, cs *CallSite, st *State, r string) {
 	covered := false
 	for k, sa := range fr.c.Asserts {
-		if sa.Assume || !calleeMatch(sa.Callee, cs.Callee) {
+		if sa.Assume || sa.Store || !calleeMatch(sa.Callee, cs.Callee) {
 			continue
 		}
 		if sa.Ord != 0 && sa.Ord != cs.Ord {
@@ -509,7 +509,7 @@ func (x *Exec) evalSiteBool(env *Env, e ast.Expr) (t string, missing string) {
 // what the environment returned at this site; every use is listed among the assumptions.
 func (x *Exec) siteAssumes(fr *frame, cs *CallSite, res Val, st *State, r string) {
 	for k, sa := range fr.c.Asserts {
-		if !sa.Assume || !calleeMatch(sa.Callee, cs.Callee) {
+		if !sa.Assume || sa.Store || !calleeMatch(sa.Callee, cs.Callee) {
 			continue
 		}
 		if sa.Ord != 0 && sa.Ord != cs.Ord {
